@@ -52,17 +52,34 @@ def build_data(paths, cpath=None, opts=None, **kw):
     return verif.data.Data(inputs, **args)
 
 
-def opts_to_argv(opts):
-    """refmodel options -> command line fragment."""
+def opts_to_argv(opts, rng=None):
+    """refmodel options -> command line fragment.  With an rng, runs of consecutive whole numbers are sometimes written in
+    the documented range syntax (1,3,4,5 -> 1,3:5), mixed with plain entries."""
     def vec(v):
-        return ",".join(gen.fnum(x) for x in v)
+        v = list(v)
+        if rng is None or rng.random() < 0.5 or not all(float(x).is_integer() for x in v) or v != sorted(set(v)):
+            return ",".join(gen.fnum(x) for x in v)
+        out, i = [], 0
+        while i < len(v):
+            j = i
+            while j + 1 < len(v) and v[j + 1] == v[j] + 1:
+                j += 1
+            if j > i:
+                out.append("%s:%s" % (gen.fnum(v[i]), gen.fnum(v[j])))
+            else:
+                out.append(gen.fnum(v[i]))
+            i = j + 1
+        return ",".join(out)
     a = []
     m = {"times": "-t", "dates": "-d", "tods": "-tod", "leadtimes": "-o", "locations": "-l",
          "locations_x": "-lx", "latrange": "-latrange", "lonrange": "-lonrange", "elevrange": "-elevrange",
          "obsrange": "-obsrange"}
     for k, flag in m.items():
         if opts.get(k) is not None:
-            a += [flag, vec(opts[k])]
+            if k.endswith("range"):
+                a += [flag, ",".join(gen.fnum(x) for x in opts[k])]
+            else:
+                a += [flag, vec(opts[k])]
     return a
 
 
